@@ -457,3 +457,12 @@ Proof.
   - apply andb_true_iff in E1. lia.
   - replace (deadline c1 <? h) with true by lia. cbn [status]. rewrite Hd1. reflexivity.
 Qed.
+
+(* F12c: with the code as it was, a stalled reader kept an expired connection up to writeWait longer *)
+Lemma blocked_writer_late :
+  exists f w, w <= f /\ f + ns_per_s < cancel_seen_unrepaired f (Some w) /\
+              cancel_seen_unrepaired f (Some w) <= f + write_wait.
+Proof. exists 2000000000, 500000000. vm_compute. repeat split; congruence. Qed.
+
+Lemma cancel_seen_at_fire f b : cancel_seen f b = f.
+Proof. reflexivity. Qed.
